@@ -623,7 +623,14 @@ func (un *Unit) execBuiltin(fr *Frame, st *State, b *ssa.Builtin, c *ssa.CallCom
 		case *types.Basic:
 			return Val{t: "(str.len " + args[0].t + ")"}
 		case *types.Map:
-			_, _, l := un.mapComps(t)
+			d, _, l := un.mapComps(t)
+			// a map of length zero has no keys (the converse, key present => length >= 1, is added at lookups)
+			if args[0].t != "0" {
+				qk := "qk!" + fmt.Sprint(un.u.fresh)
+				un.u.fresh++
+				un.u.usesQuant = true
+				un.addFact(fmt.Sprintf("(=> (= %s 0) (forall ((%s %s)) (not (select %s %s))))", sel(un.get(st, l), args[0].t), qk, un.u.sortOf(t.Key()), sel(un.get(st, d), args[0].t), qk))
+			}
 			return Val{t: ite(eq(args[0].t, "0"), "0", sel(un.get(st, l), args[0].t))}
 		case *types.Array:
 			return Val{t: intLit(t.Len())}
